@@ -1,5 +1,5 @@
 (* props/C07.v -- C07: metadata objects always satisfy the format's invariants. *)
-From Geff Require Import Base Meta MetaLemmas.
+From Geff Require Import Base Meta MetaLemmas MetaDtypeLemmas Json Schema MetaJson MetaJsonLemmas MetaDomainLemmas MetaAlias MetaAliasLemmas.
 From Geff.Gen Require Import Consts.
 Open Scope string_scope.
 Open Scope Z_scope.
@@ -67,8 +67,12 @@ Proof. exact step_inv. Qed.
 Print Assumptions C07_step_preserves.
 
 (* ---------------------------------------------------------------- failed operations change nothing *)
-(* An operation that raises leaves every live object as it was (assignments are rolled back;
-   helpers and parses work on copies). *)
+(* C07_atomic and C07_frame are DEFINITIONAL on the pool model of Meta.v: `assign` returns its argument on an
+   error and `push` leaves the pool alone, by definition, and a copy is the identity because pool entries are
+   values.  They record how the pool model is built and do not cover the clause "leaves the object as it was";
+   the statements with content are C07_alias_atomic / C07_alias_frame below, on the model in which
+   PropMetadata instances are shared heap cells that add_or_update_props_metadata overwrites in place and in
+   which __setattr__ stores the value before the after-validator runs and then restores its snapshot. *)
 Theorem C07_atomic : forall gv p o p' e, step gv p o = (p', Err e) -> p' = p.
 Proof. exact step_atomic. Qed.
 Print Assumptions C07_atomic.
@@ -83,9 +87,17 @@ Print Assumptions C07_frame.
 (* If the value passes the field's own validator, giving the would-be object m1, then the
    assignment succeeds and produces exactly m1 when m1 satisfies the invariants, and raises a
    validation error leaving the object unchanged when m1 breaks one. *)
-Theorem C07_assign_decides : forall m f v m1, InvW m -> set_field m f v = Ok m1 ->
+(* assign_in_scope f v / construct_in_scope kvs (MetaDtypeLemmas) delimit the inputs on which the model's
+   reading of the two lax parsers it depends on is claimed to be, and is tied by the correspondence to be, the
+   library's: dtype strings without control characters, without , ( ) and not starting with a digit
+   (Meta.dtype_in_scope: outside, numpy runs its comma-string parser, e.g. "()i4" is int32); strings offered to
+   the float fields of an Axis that hold no digit and no letter n (pydantic parses "1.5", " 1", "nan", "1_0");
+   ints offered to them within +-2^53; ASCII version strings (pydantic's \d is Unicode).  The hypotheses are
+   not used by the proofs -- the statements hold of the MODEL for every input -- they say where the model is
+   the code. *)
+Theorem C07_assign_decides : forall m f v m1, assign_in_scope f v = true -> InvW m -> set_field m f v = Ok m1 ->
   (InvW m1 -> assign m f v = (m1, Ok tt)) /\ (~ InvW m1 -> assign m f v = (m, Err ValueError)).
-Proof. exact assign_decides. Qed.
+Proof. intros m f v m1 _. exact (assign_decides m f v m1). Qed.
 Print Assumptions C07_assign_decides.
 
 Theorem C07_assign_field_error : forall m f v e, set_field m f v = Err e -> assign m f v = (m, Err e).
@@ -93,9 +105,9 @@ Proof. exact assign_field_error. Qed.
 Print Assumptions C07_assign_field_error.
 
 (* construction / parsing succeeds exactly when the fields validate and the object satisfies the invariants *)
-Theorem C07_construct_decides : forall gv kvs m, version_ok gv = true ->
+Theorem C07_construct_decides : forall gv kvs m, construct_in_scope kvs = true -> version_ok gv = true ->
   (construct gv (JObj kvs) = Ok m <-> md_fields gv kvs = Ok m /\ InvW m).
-Proof. exact construct_iff. Qed.
+Proof. intros gv kvs m _. exact (construct_iff gv kvs m). Qed.
 Print Assumptions C07_construct_decides.
 
 (* ---------------------------------------------------------------- the nested validators *)
@@ -111,9 +123,95 @@ Theorem C07_dtype_allowed : forall v n, convert_dtype v = Ok n -> In n valid_dty
 Proof. exact convert_dtype_valid. Qed.
 Print Assumptions C07_dtype_allowed.
 
+(* what _convert_dtype does to a STRING: numpy's allowed name for it (np_valid_name: byte-order character, one type
+   character | kind + size read by strtol | a name of numpy's type dictionary), otherwise a validation error --
+   whatever class numpy raised (as repaired: SyntaxError for "," / "i4,," included).  The finite table np_names
+   never changes an outcome. *)
+Theorem C07_dtype_decides : forall s,
+  convert_dtype (JStr s) = match np_valid_name s with Some n => Ok n | None => Err ValueError end.
+Proof. exact convert_dtype_str. Qed.
+Print Assumptions C07_dtype_decides.
+
+Theorem C07_dtype_names_allowed : forall s n, np_valid_name s = Some n -> In n valid_dtypes /\ n <> "".
+Proof. exact np_valid_name_valid. Qed.
+Print Assumptions C07_dtype_names_allowed.
+
+(* pydantic's lax bool parsing of a string: the ASCII-lower-cased string is one of the six true / six false words *)
+Theorem C07_bool_strings : forall s b,
+  v_bool (JStr s) = Ok b <->
+  (b = true /\ In (lower s) ["1"; "true"; "t"; "yes"; "y"; "on"]) \/ (b = false /\ In (lower s) ["0"; "false"; "f"; "no"; "n"; "off"]).
+Proof. exact v_bool_str. Qed.
+Print Assumptions C07_bool_strings.
+
+Theorem C07_bool_case_insensitive : forall s s', lower s = lower s' -> v_bool (JStr s) = v_bool (JStr s').
+Proof. exact v_bool_case_insensitive. Qed.
+Print Assumptions C07_bool_case_insensitive.
+
 Theorem C07_axes_from_lists : forall ls l, axes_from_lists ls = Ok l -> Forall (axis_inv_gen not_gt) l.
 Proof. exact axes_from_lists_inv. Qed.
 Print Assumptions C07_axes_from_lists.
+
+(* ---------------------------------------------------------------- more than the listed invariants *)
+(* every reachable object also satisfies what the nested validators guarantee beyond the property's list:
+   axis types are among the allowed ones, identifiers are not empty, track keys are lineage / tracklet
+   (inv_struct = C08's validity domain without finiteness; it implies InvW) *)
+Theorem C07_reachable_struct : forall gv ops m, version_ok gv = true -> In m (run gv [] ops) -> inv_struct m = true.
+Proof. exact reachable_struct. Qed.
+Print Assumptions C07_reachable_struct.
+
+Theorem C07_struct_implies_inv : forall m, inv_struct m = true -> InvW m.
+Proof. exact inv_struct_InvW. Qed.
+Print Assumptions C07_struct_implies_inv.
+
+(* ---------------------------------------------------------------- shared PropMetadata instances (MetaAlias.v) *)
+(* arun gv empty_state ops: the same operations on a heap of PropMetadata instances; `views` = what model_dump()
+   shows of every live object.  AConstruct / AAssign say for which keys the caller passed ONE instance in both
+   property dictionaries.  Whatever is shared, every live object satisfies the invariants ... *)
+Theorem C07_alias_inv : forall gv ops, version_ok gv = true -> Forall InvW (views (arun gv empty_state ops)).
+Proof. exact alias_reachable_inv. Qed.
+Print Assumptions C07_alias_inv.
+
+Theorem C07_alias_struct : forall gv ops m,
+  version_ok gv = true -> In m (views (arun gv empty_state ops)) -> inv_struct m = true.
+Proof. exact alias_reachable_struct. Qed.
+Print Assumptions C07_alias_struct.
+
+(* ... an operation that raises leaves the view of every live object as it was (a rejected assignment: the value was
+   stored into NEW cells and __setattr__ restored its snapshot; a rejected helper call: only cells of its own deep
+   copy were written; state_ok is the invariant of reachable states, C07_alias_state_ok) ... *)
+Theorem C07_alias_atomic : forall gv s o s' e,
+  version_ok gv = true -> state_ok s -> astep gv s o = (s', Err e) -> views s' = views s.
+Proof. exact alias_atomic. Qed.
+Print Assumptions C07_alias_atomic.
+
+(* ... and a successful operation changes the view of no live object but the target of an assignment, although
+   add_or_update_props_metadata overwrites instances in place: it does so in cells its deep copy allocated *)
+Theorem C07_alias_frame : forall gv s o s',
+  version_ok gv = true -> state_ok s -> astep gv s o = (s', Ok tt) -> frame (views s) (erase o) (views s').
+Proof. exact alias_frame. Qed.
+Print Assumptions C07_alias_frame.
+
+Theorem C07_alias_state_ok : forall gv ops, version_ok gv = true -> state_ok (arun gv empty_state ops).
+Proof. intros gv ops Hg. apply arun_state_ok; [exact Hg | exact empty_state_ok]. Qed.
+Print Assumptions C07_alias_state_ok.
+
+(* no operation writes into a cell that existed before it *)
+Theorem C07_alias_heap_monotone : forall gv s o,
+  version_ok gv = true -> state_ok s -> ext (as_heap s) (as_heap (fst (astep gv s o))).
+Proof. exact alias_heap_monotone. Qed.
+Print Assumptions C07_alias_heap_monotone.
+
+(* the aliasing is real: with one instance under "a" in both dictionaries an update of the node entry shows in
+   the edge entry (of the result, not of the original); without sharing, and in the pool model, it does not *)
+Theorem C07_alias_example :
+  map dtypes_of (views (arun "1.3" empty_state [AConstruct alias_kw ["a"]; AAddProps 0 alias_upd (JStr "node")]))
+    = [(["int8"], ["int8"]); (["float64"], ["float64"])]
+  /\ map dtypes_of (views (arun "1.3" empty_state [AConstruct alias_kw []; AAddProps 0 alias_upd (JStr "node")]))
+    = [(["int8"], ["int8"]); (["float64"], ["int8"])]
+  /\ map dtypes_of (run "1.3" [] [OConstruct alias_kw; OAddProps 0 alias_upd (JStr "node")])
+    = [(["int8"], ["int8"]); (["float64"], ["int8"])].
+Proof. exact alias_example. Qed.
+Print Assumptions C07_alias_example.
 
 (* ---------------------------------------------------------------- the version pattern *)
 (* the source's VERSION_PATTERN (regenerated into Gen/Consts.v on every run) is the literal whose
@@ -174,3 +272,26 @@ Example C07_nonvacuous :
 Proof.
   vm_compute. repeat split; repeat constructor; discriminate.
 Qed.
+
+(* the scope hypotheses of the _decides theorems are satisfiable by the example (and fail on "()i4", "1.5" for a bound) *)
+Example C07_nonvacuous_scope :
+  match ex_kw with JObj kvs => construct_in_scope kvs | _ => false end = true /\
+  assign_in_scope FAxes (JList [ex_axis "x"; ex_axis "x"]) = true /\
+  assign_in_scope FNodeProps (JObj [("b", JObj [("identifier", JStr "a"); ("dtype", JStr "=i4")])]) = true /\
+  assign_in_scope FNodeProps (JObj [("b", JObj [("identifier", JStr "a"); ("dtype", JStr "()i4")])]) = false /\
+  assign_in_scope FAxes (JList [JObj [("name", JStr "x"); ("min", JStr "1.5"); ("max", JInt 2)]]) = false /\
+  map np_valid_name ["l"; "=i4"; "|u1"; "U0"; "i 4"; "S0"; "ulonglong"; "int8 "; "<int8"; "i3"; "f2"; ","; "i4,,"]
+    = [Some "int64"; Some "int32"; Some "uint8"; Some "str"; Some "int32"; Some "bytes"; Some "uint64"; None; None; None; None; None; None] /\
+  map (fun s => v_bool (JStr s)) ["TRUE"; "Yes"; "oFf"; " yes"; "1.0"] = [Ok true; Ok true; Ok false; Err ValueError; Err ValueError].
+Proof. vm_compute. repeat split. Qed.
+
+(* the heap model is exercised with sharing, a rejected assignment that had stored shared and new instances, and helpers *)
+Example C07_nonvacuous_alias :
+  let ops := [AConstruct alias_kw ["a"];
+              AAssign 0%nat FNodeProps (JObj [("a", JObj [("identifier", JStr "a"); ("dtype", JStr "int8")]);
+                                          ("q", JObj [("identifier", JStr "z"); ("dtype", JStr "int8")])]) ["a"];   (* key <> identifier: rejected *)
+              ACopy 0%nat CDeep; AAddProps 1%nat alias_upd (JStr "edge"); ACopy 0%nat CRebuild; AAddProps 3%nat alias_upd (JStr "edge");
+              ACreateOrUpdate (Some 0%nat) (JStr "maybe") JNull] in
+  map dtypes_of (views (arun "1.3" empty_state ops))
+    = [(["int8"], ["int8"]); (["int8"], ["int8"]); (["float64"], ["float64"]); (["int8"], ["int8"]); (["int8"], ["float64"])].
+Proof. vm_compute. reflexivity. Qed.
